@@ -356,7 +356,7 @@ func fileModules(c *fw.Ctx) {
 // twoDirectories: the same relative spelling used from modules in two directories names two different files; each
 // file is one module (body runs once, one object) whatever the order in which the spellings are met.
 func twoDirectories(c *fw.Ctx) {
-	c.Family("file-importer-two-directories", "a/mod.ugo and b/mod.ugo both import \"./util.ugo\" (their own), main imports every ordered triple of {a/mod, b/mod, a/util, b/util} x 2 working directories x optimizer on/off; model: one module per file")
+	c.Family("file-importer-two-directories", "a/mod.ugo and b/mod.ugo both import \"./util.ugo\" (their own), main imports every ordered triple of {a/mod, b/mod, a/util, b/util, a/fmod, b/fmod} (fmod imports inside a function literal; a decoy util.ugo lies in the main script's directory) x 2 working directories x optimizer on/off; model: one module per file")
 	cwd, err := filepath.Abs(".")
 	if err != nil {
 		c.Infra("getwd: %v", err)
@@ -367,7 +367,13 @@ func twoDirectories(c *fw.Ctx) {
 	for _, d := range []string{"a", "b"} {
 		files[filepath.Join(root, d, "mod.ugo")] = "return import(\"./util.ugo\")\n"
 		files[filepath.Join(root, d, "util.ugo")] = "global L\nL(\"body " + d + "\")\nn := 0\nreturn {id: \"" + d + "\", inc: func() { n++; return n }}\n"
+		// the relative import is written inside a function literal of the module (compiled by a child compiler): it
+		// still is relative to the module's directory
+		files[filepath.Join(root, d, "fmod.ugo")] = "f := func() { return import(\"./util.ugo\") }\nreturn f()\n"
 	}
+	// a file of the same name in the working directory of the main script must not be taken instead
+	files[filepath.Join(root, "util.ugo")] = "global L\nL(\"body root\")\nn := 100\nreturn {id: \"root\", inc: func() { n++; return n }}\n"
+
 	reader := func(name string) ([]byte, error) {
 		abs, err := filepath.Abs(name)
 		if err != nil {
@@ -379,7 +385,7 @@ func twoDirectories(c *fw.Ctx) {
 		return nil, fmt.Errorf("no such file %s", name)
 	}
 	rel, _ := filepath.Rel(cwd, root)
-	targets := []struct{ path, dir string }{{"a/mod.ugo", "a"}, {"b/mod.ugo", "b"}, {"a/util.ugo", "a"}, {"b/util.ugo", "b"}}
+	targets := []struct{ path, dir string }{{"a/mod.ugo", "a"}, {"b/mod.ugo", "b"}, {"a/util.ugo", "a"}, {"b/util.ugo", "b"}, {"a/fmod.ugo", "a"}, {"b/fmod.ugo", "b"}}
 	for _, wd := range []string{rel, root} {
 		for i1 := range targets {
 			for i2 := range targets {
